@@ -4,6 +4,6 @@ CONSTANTS
   AddrsOf <- AddrsDef
   Limits <- LimNone
   MaxCid = 1000000
-  Fixed <- NoFixed
+  Fixed <- FixedNow
 POSTCONDITION Accepted
 CHECK_DEADLOCK FALSE
